@@ -255,10 +255,6 @@ def intersection (known : Bytes → Bool) (names : List Bytes) : List Bytes := n
 
 /-- `responseWriter.writeEnd`. -/
 def writeEnd (st : St) (e : RespEnd) (wasInHeaders : Bool) : St :=
-  let st :=
-    match wasInHeaders, st.rw.respMeta with
-    | false, some rm => { st with sink := { st.sink with hdr := (httpExtractTrailers st.sink.hdr rm.pendingTrailerKeys).2 } }
-    | _, _ => st
   let st := { st with sink := encodeEnd st.op.cform e wasInHeaders st.sink }
   { st with rw := { st.rw with endWritten := true } }
 
@@ -288,6 +284,10 @@ def flushHeaders (w : World) (st : St) : St × Bool :=
 /-- `responseWriter.reportEnd`. -/
 def reportEnd (w : World) (st : St) (e : RespEnd) : St × Bool :=
   if st.rw.endWritten then (st, false) else
+  -- trailers the handler stored so far are part of `e` already, or superseded by it
+  let st := match st.rw.respMeta with
+    | some rm => { st with sink := { st.sink with hdr := (httpExtractTrailers st.sink.hdr rm.pendingTrailerKeys).2 } }
+    | none => st
   let e := match st.rw.respMeta with
     | some rm => if !rm.pendingTrailers.isEmpty && e.trailers.isEmpty then { e with trailers := rm.pendingTrailers } else e
     | none => e
@@ -373,7 +373,8 @@ def ewInit (w : World) (st : St) (e : EW) : St × EW × Bool :=
     | none => (st, { e with remaining := -1, current := .down }, false)
     | some ce =>
       if st.rw.contentLen == -1 then (st, { e with remaining := -1, current := .limitBuf [], mustRelease := true }, false)
-      else if st.rw.contentLen > st.op.conf.maxMsg then (st, { e with err := true }, false)
+      else if st.rw.contentLen > st.op.conf.maxMsg then
+        let (st, p) := reportError w st (.rpc 8); (st, { e with err := true }, p)
       else
         let env : Envelope := { compressed := st.rw.cRespComp.isSome, length := st.rw.contentLen.toNat }
         let (st, failed, p) := writeDown w st (ce.encode env)
